@@ -5,7 +5,7 @@ use vh::algs::scc::SccOracle;
 use vh::e2::{main_e2, Args, Ctx, Family, Spec};
 use vh::enc::{self, Abs};
 use vh::refmodel::*;
-use vh::{c09_basic, c09_bip, c09_cc, c09_cyc_und, c09_directed};
+use vh::{c09_basic, c09_bip, c09_cc, c09_cyc_und, c09_directed, c09_space_across};
 
 fn condensation_check(ctx: &mut Ctx, abs: &Abs<u8>, o: &SccOracle) {
     use petgraph::algo::{condensation, is_cyclic_directed};
@@ -132,6 +132,16 @@ fn run_case(ctx: &mut Ctx, n: usize, directed: bool, edges: Vec<E>) {
             c09_cyc_und!(ctx, &abs, &o, &e);
         }
         condensation_check(ctx, &abs, &o);
+        // workspaces carried over from a larger graph of the same type
+        let star: Abs<u8> = Abs::new(n + 3, true, (1..n + 3).map(|k| (0, k, 1u8)).collect());
+        c09_space_across!(ctx, &abs, &o, &enc::graph::<T, u32, _>(&abs), &enc::graph::<T, u32, _>(&star));
+        c09_space_across!(ctx, &abs, &o, &enc::stable_holes::<T, u32, _>(&abs), &enc::stable_holes::<T, u32, _>(&star));
+        if let (Some(e), Some(x)) = (enc::graphmap::<T, _>(&abs, 1), enc::graphmap::<T, _>(&star, 0)) {
+            c09_space_across!(ctx, &abs, &o, &e, &x);
+        }
+        if let (Some(e), Some(x)) = (enc::matrix_hole::<T, _>(&abs), enc::matrix::<T, _>(&star)) {
+            c09_space_across!(ctx, &abs, &o, &e, &x);
+        }
     } else {
         type T = Undirected;
         let e = enc::graph::<T, u32, _>(&abs);
@@ -231,7 +241,10 @@ fn families(a: &Args) -> Vec<Family> {
         list_family("ungraph-lists", false, ListFam::new(3, 4, false)),
         simple_family("digraphs5-loopfree", true, SimpleFam::new(5..=5, true, false)),
         simple_family("ungraphs5", true, SimpleFam::new(5..=5, false, true)),
-        list_family("digraph-lists4", true, ListFam::new(4, 3, true)),
+        list_family("digraph-lists4", true, ListFam::new(4, 4, true)),
+        list_family("digraph-lists3-m5", true, ListFam::new(3, 5, true)),
+        list_family("ungraph-lists4", true, ListFam::new(4, 4, false)),
+        simple_family("ungraphs6-loopfree", true, SimpleFam::new(6..=6, false, false)),
     ]
 }
 
